@@ -24,7 +24,8 @@
 (* source tie by translation: the lemmas of these files are obligations of this property *)
 From Soy Require Import Proofs.SourceTieExpr Proofs.SourceTieQuote Proofs.SourceTieAstPrint Proofs.SourceTieUnquote.
 From Soy Require Import Model.Bytes Model.Num Model.Values Model.Ast Model.Token Model.NumLit Model.Quote Model.ExprParser
-  Model.AstPrint Generated.Tables Spec.ExprSyntax Proofs.ExprParserRules Proofs.LiteralProofs Proofs.ExprParserProofs Proofs.PlaceholderTextProofs.
+  Model.AstPrint Generated.Tables Spec.ExprSyntax Proofs.ExprParserRules Proofs.LiteralProofs Proofs.ExprParserProofs Proofs.PlaceholderTextProofs Proofs.FloatRtPrint.
+From Soy Require Proofs.FloatRtMain Proofs.FloatRtLex.
 From Soy Require Import Model.Outcome Model.MsgId Proofs.MsgIdProofs.
 From Soy Require Import Model.Lexer Model.Parser Proofs.LexPrintMain Proofs.LexParseText Proofs.LexPrintCmd Proofs.PrintCmdText.
 From Soy Require Import Proofs.ParserProofs Proofs.CmdParserFuel Proofs.PrintCmdFile.
@@ -244,13 +245,36 @@ Theorem C17_map_keys : forall k, Utf8.utf8_valid k = true -> key_ok k.
 Proof. exact key_ok_valid_utf8. Qed.
 Print Assumptions C17_map_keys.
 
-(* The float side condition is decidable ([float_okb], sound: float_okb f = true -> float_ok f).
-   NOT a universal theorem: a computed sample -- every dyadic (2k+1)/2^j, k < 60, j in
-   {0,1,2,3,5,9,10,14,20}, of either sign (1080 values) is printed by the printer model
-   (Num.fl_to_string covers all finite floats) and reads back as itself.  A float whose shortest
-   representation is NOT its exact decimal expansion (16 or 17 significant digits, e.g. 599/2^20 =
-   0.00057125091552734375, printed by Go as 0.0005712509155273438) is outside wf_expr: the literal
-   reader of the model (NumLit.parse_float) reads exact decimals only, so float_ok does not hold. *)
+(* Float literals: the side condition of wf_expr ([float_ok f]: f is a finite float in normal form -- a signed
+   zero or an odd mantissa, what every operation of Model/Num.v returns -- that the printer model prints) says
+   nothing about reading back any more.  THEOREM (Proofs/FloatRt*.v, no sample, no bound on digits or exponent):
+   the text FloatNode.String() writes for such a float (strconv 'g' -1: the shortest digits that identify the
+   float64, in one of four layouts, ".0" appended to a bare integer) is a float literal of the scanner's syntax
+   and strconv.ParseFloat's correctly rounded conversion (NumLit.parse_float_round) reads it back as the same
+   float: the digits lie in the rounding interval of f (every exit of the digit search), and round_ratio returns f
+   for every fraction in that interval, ties included when the mantissa is even.  16- and 17-digit floats such as
+   599/2^20 = 0.00057125091552734375, printed as 0.0005712509155273438, are inside.
+   What is left of the condition is the shape of the value: the printer model answers on every float of the model's
+   window and on no other (C17_float_condition; Proofs/FloatRtTotal.v: the decimal exponent is among the four
+   candidates around the estimate, and 17 digits always suffice). *)
+Theorem C17_float_literals : forall f s, fl_finite_norm f -> fl_print f = Some s -> parse_float_round s = FRVal f.
+Proof. exact FloatRtPrint.fl_print_parse. Qed.
+Print Assumptions C17_float_literals.
+
+(* and the printer model prints exactly the floats of the model: float_ok is a condition on the shape of the value *)
+Theorem C17_float_condition : forall f, float_ok f <-> FloatRtMain.fl_in_window f.
+Proof. exact FloatRtPrint.float_ok_iff_window. Qed.
+Print Assumptions C17_float_condition.
+
+(* the float clause of lex_ok (the printed float text is ONE float item for the scanner: sign, digits, then a fraction
+   or an exponent) is a theorem too: lex_ok says nothing about floats that wf_expr does not already give *)
+Theorem C17_float_texts : forall f s, fl_finite_norm f -> fl_print f = Some s -> float_txt_ok s.
+Proof. exact FloatRtLex.fl_print_float_txt. Qed.
+Print Assumptions C17_float_texts.
+Theorem C17_float_lex_ok : forall p f, float_ok f -> lex_ok (NFloat p f).
+Proof. intros p f [Hn _]. exact (FloatRtLex.lex_ok_float p f Hn). Qed.
+Print Assumptions C17_float_lex_ok.
+
 Theorem C17_float_checker_sound : forall f, float_okb f = true -> float_ok f.
 Proof. exact float_okb_sound. Qed.
 Print Assumptions C17_float_checker_sound.
@@ -261,7 +285,8 @@ Definition c17_float_samples : list fl :=
                               [0; 1; 2; 3; 5; 9; 10; 14; 20]%nat) (c17_upto 60).
 Example C17_float_sample :
   forallb float_okb c17_float_samples = true /\ length c17_float_samples = 1080%nat /\
-  fl_print (FFin 599 (-20)) = Some (b "0.0005712509155273438") /\ float_okb (FFin 599 (-20)) = false.
+  fl_print (FFin 599 (-20)) = Some (b "0.0005712509155273438") /\ float_okb (FFin 599 (-20)) = true /\
+  parse_float_round (b "0.0005712509155273438") = FRVal (FFin 599 (-20)).
 Proof. vm_compute. repeat split; reflexivity. Qed.
 
 (* ---- non-vacuity: concrete well-formed trees, printed and read back by computation ---- *)
@@ -280,6 +305,7 @@ Proof.
            | |- _ /\ _ => split
            | |- True => exact I
            | |- exists _, _ => eexists
+           | |- fl_finite_norm _ => vm_compute; reflexivity
            | |- _ = _ => vm_compute; reflexivity
            | |- (_ <= _)%Z => vm_compute; discriminate
            end.
@@ -435,6 +461,7 @@ Proof.
          | Ha : c_al ?s = _ |- resolve_name ?s _ = _ => unfold resolve_name; rewrite Ha; vm_compute; reflexivity
          | |- forall _, _ => intro
          | |- wf_expr _ => cbn
+         | |- fl_finite_norm _ => vm_compute; reflexivity
          | |- _ = _ => vm_compute; reflexivity
          | |- _ <> _ => vm_compute; discriminate
          end.
